@@ -261,7 +261,14 @@ def known_shapes():
                                                                        ("r", concat(n("q"), n("Y")), False),
                                                                        ("q", concat(A, ret(), n("X")), False)], parts=["r"]),
                 [("r", ["Y"]), ("r", ["A", "X", "Y"]), ("", ["A", "X", "Y", "C"]), ("", ["X", "Y", "C"])]))
+    # F18 (compile side): `&` behind a commit in a rule used inside a choice is emitted as `return;` in a function returning Option<()>
+    out.append(("F18-return-after-commit-in-rule-shared-with-choice", _g("ABC", [("s", concat(paren(choice(n("x"), concat(A, B))), C), False),
+                                                                                  ("x", concat(A, commit(), B, ret(), C), False)]),
+                [("", ["A", "B", "C", "C"])]))
     # repaired defects kept as regression witnesses (must stay silent)
+    out.append(("fixed-nameless-creation-in-attempt", _g("ABCD", [("s", n("r"), False),
+                                                                   ("r", choice(concat(A, marker(1), B, create(1, None), C), concat(A, B, D)), False)]),
+                [("", ["A", "B", "D"]), ("", ["A", "B", "C"]), ("", ["A", "B"])]))
     out.append(("fixed-pratt-rule-in-choice", _g(["N", "P", "X"], [("s", choice(concat(n("e"), n("e"), n("e")), concat(n("e"), n("e"), n("X"))), False),
                                                                     ("e", alt(concat(n("e"), n("P"), n("e")), n("N")), False)]),
                 [("", ["N", "N", "X"]), ("", ["N", "P", "N", "N", "X"]), ("", ["N", "N", "N"])]))
